@@ -8,7 +8,6 @@ Import ListNotations.
 Local Open Scope nat_scope.
 
 Definition query := (ty * ty * bool * api)%type.
-Definition case := (list (list bool) * list (list ty) * list (ty * ty * fac) * list (query * outcome))%type.
 
 Definition config_of (s : list (list bool)) (m : list (list ty)) (offs : list (ty * ty * fac)) (q : query) : config :=
   let '(src, tgt, flag, _) := q in
@@ -45,27 +44,25 @@ Definition obs_diff (m i : outcome) : list Z :=
     ++ chk 3 (list_eqb nat_list_eqb (map value_ids (outcome_vals m)) (map value_ids (outcome_vals i)))
   end.
 
-Fixpoint corr_qs (s : list (list bool)) (m : list (list ty)) (offs : list (ty * ty * fac))
-    (i : Z) (qs : list (query * outcome)) : list Z :=
-  match qs with
-  | [] => []
-  | (q, o) :: r =>
-      map (fun c => (100 * i + c)%Z)
-          (obs_diff (run_api (env_of (config_of s m offs q)) default_fuel (snd q)) o)
-      ++ corr_qs s m offs (i + 1)%Z r
-  end.
+(* A case is a HISTORY: a list of phases.  Between two phases the hierarchy (ABCMeta.register) or the registry
+   (register_offer) was changed; every phase carries the tables / offer list current at that time (re-read from the
+   interpreter) and its queries with their position in the history.  The model answers every query from the tables
+   of its phase only — it has no memory — so anything the implementation carries over from an earlier phase shows. *)
+Definition phase := (list (list bool) * list (list ty) * list (ty * ty * fac) * list (Z * query * outcome))%type.
+Definition case := list phase.
 
-Fixpoint law_qs (s : list (list bool)) (m : list (list ty)) (offs : list (ty * ty * fac))
-    (i : Z) (qs : list (query * outcome)) : list Z :=
-  match qs with
-  | [] => []
-  | (q, o) :: r =>
-      map (fun c => (100 * i + c)%Z) (law (env_of (config_of s m offs q)) (snd q) o)
-      ++ law_qs s m offs (i + 1)%Z r
-  end.
+Definition corr_phase (ph : phase) : list Z :=
+  let '(s, m, offs, qs) := ph in
+  flat_map (fun x : Z * query * outcome => let '(i, q, o) := x in
+              map (fun c => (100 * i + c)%Z)
+                  (obs_diff (run_api (env_of (config_of s m offs q)) default_fuel (snd q)) o)) qs.
+Definition law_phase (ph : phase) : list Z :=
+  let '(s, m, offs, qs) := ph in
+  flat_map (fun x : Z * query * outcome => let '(i, q, o) := x in
+              map (fun c => (100 * i + c)%Z) (law (env_of (config_of s m offs q)) (snd q) o)) qs.
 
-Definition corr_codes (c : case) : list Z := let '(s, m, offs, qs) := c in corr_qs s m offs 0%Z qs.
-Definition law_codes (c : case) : list Z := let '(s, m, offs, qs) := c in law_qs s m offs 0%Z qs.
+Definition corr_codes (c : case) : list Z := flat_map corr_phase c.
+Definition law_codes (c : case) : list Z := flat_map law_phase c.
 
 (* for the evidence: how many queries of a case have a non-trivial answer in the model *)
 Definition mk_offer (i f t : nat) : offer := {| oid_ := i; ofrom := f; oto := t |}.
